@@ -399,6 +399,9 @@ def observe_all(quick, seed):
     for k in range(2 if quick else 10):
         td, n = thin(b.getvalue(), rng)
         out.append(observe_deck(Presentation(io.BytesIO(td)), f"generated-deck(thinned#{k},{n} removed)", rng, 3000))
+    for k in range(1 if quick else 5):
+        ed, n = enrich(b.getvalue(), rng, per_part=40)
+        out.append(observe_deck(Presentation(io.BytesIO(ed)), f"generated-deck(enriched#{k},{n} added)", rng, 3000))
     for d in decks_for(quick, rng):
         try:
             prs = Presentation(str(d))
@@ -619,6 +622,10 @@ def correspond(ctx):
         td, n = thin(gen, rng)
         end_to_end(ctx, f"generated-deck(thinned#{k})", td, lines, metas)
         ctx.count("thinned-removals", n)
+    for k in range(2 if ctx.quick else 8):
+        ed, n = enrich(gen, rng, per_part=40)
+        end_to_end(ctx, f"generated-deck(enriched#{k})", ed, lines, metas)
+        ctx.count("enriched-additions", n)
     b3 = io.BytesIO()
     prs3 = build_deck(); prs3.slides.add_slide(prs3.slide_layouts[5]); prs3.slides.add_slide(prs3.slide_layouts[1]); prs3.save(b3)
     for k in range(3 if ctx.quick else 10):
